@@ -346,13 +346,22 @@ func checkC03(x *Exec, c *Case) ([]Violation, bool) {
 	}
 	// exact consumption: the same session without the grammar-external surplus
 	// bytes inside messages must give the same transcript and callback trace
-	hasTail := false
+	hasTail, oversized := false, false
 	for _, m := range c.Conns[0].FlatMsgs() {
 		if len(m.K) == 1 && m.K != "d" && len(m.Tail) > 0 {
 			hasTail = true
+			var size int64
+			for _, ch := range m.Encode() {
+				size += ch.Len()
+			}
+			if limit := int64(c.Server.Limit); limit > 0 && size-1 > limit {
+				// the rejection of an oversized message quotes its size: the
+				// comparison only applies to messages the server reads
+				oversized = true
+			}
 		}
 	}
-	if hasTail {
+	if hasTail && !oversized {
 		rv := x.Run(stripTails(c))
 		cs := rv.Conns[0]
 		if Canonical(ParseOut(cs).Msgs) != refT || CallbackTrace(cs) != refEv {
